@@ -55,6 +55,7 @@ const (
 	GExportAtBoundary = "g:export_at_block_boundary"
 	GMultiRedelSlash  = "g:several_delegators_redelegate_then_slash"
 	GPackBucket       = "g:several_undelegations_of_one_delegator_in_one_block"
+	GDrainAsset       = "g:every_position_of_an_asset_exits"
 )
 
 const (
@@ -69,6 +70,7 @@ func baseProfile() Profile {
 		Weights: map[string]int{
 			KDelegate: 22, KUndelegate: 14, KRedelegate: 10, KClaim: 6, KBlock: 22, KSlashHook: 3, KSlash: 4,
 			KDonate: 2, KNatDel: 2, KNatUndel: 2, KJail: 1, KUnjail: 1, KUpdate: 2, KUnbTime: 1, KCreate: 1, KDelete: 1,
+			GDrainAsset: 2,
 		},
 		MinSteps: 4, MaxSteps: 40,
 		UnbTimes:   []int64{ns, sec, 3600 * sec, 21 * day},
@@ -619,6 +621,41 @@ func (g *Gen) Step() {
 			} else {
 				p := new(big.Int).Quo(s.Vals[d.V].Tokens.BigInt(), big.NewInt(1_000_000)).Int64()
 				x.Apply(Op{K: KSlash, V: d.V, Frac: g.frac(), Power: p, Age: int64(g.intn("age", 2))})
+			}
+		}
+	case GDrainAsset:
+		// every position of one asset undelegates its full reported balance (the asset's staked
+		// total returns to zero, or to rounding dust), so that re-entry is exercised afterwards
+		ds := g.assetDenoms()
+		if len(ds) == 0 {
+			return
+		}
+		dn := ds[g.intn("drain-denom", len(ds))]
+		for i := 0; i < 12; i++ {
+			cur := x.Post()
+			var pos []DelSnap
+			for _, d := range cur.Dels {
+				if d.Denom == dn && d.D >= 0 && d.D != 100 && d.V >= 0 {
+					pos = append(pos, d)
+				}
+			}
+			if len(pos) == 0 {
+				break
+			}
+			d := pos[0]
+			bal := cur.Reported(d)
+			if bal.Sign() <= 0 {
+				break
+			}
+			r := x.Apply(Op{K: KUndelegate, D: d.D, V: d.V, Denom: d.Denom, Amt: bal.String()})
+			if !r.OK {
+				// try one unit less once (the reported balance is not always withdrawable)
+				if bal.Cmp(big.NewInt(1)) > 0 {
+					r = x.Apply(Op{K: KUndelegate, D: d.D, V: d.V, Denom: d.Denom, Amt: new(big.Int).Sub(bal, big.NewInt(1)).String()})
+				}
+				if !r.OK {
+					break
+				}
 			}
 		}
 	case GPackBucket:
